@@ -1539,10 +1539,10 @@ def collect_run(ctx, spec, tuner, sched, backend, store, rec, summaries, run_err
     if mod is not None:
         er = mod.load_experiment(spec["name"], download_if_not_found=False)
         df = er.results
+        meta_ok = er.metadata is not None and er.metadata.get("metric_names") == list(names) \
+            and er.metadata.get("metric_mode") == mode
         if df is not None and len(df.columns):
             eqs = exp_queries(er, names)
-            meta_ok = er.metadata is not None and er.metadata.get("metric_names") == list(names) \
-                and er.metadata.get("metric_mode") == mode
     events = []
     stores = list(store.store_sizes)
     for i, (dv, row) in enumerate(zip(deliveries, rows)):
@@ -1702,6 +1702,9 @@ def run_cases(ctx, replay, corpus_only=False):
                            "one": dict(max_results=1),
                            "several": dict(max_results=rng.randint(2, 8))}[how]
             sp["rerun"]["seed"] = sp["seed"] + 1
+            if rng.random() < 0.5:
+                sp["first_flipped"] = True
+                sp["first_renamed"] = rng.random() < 0.5
             sp["max_results"] = max(sp["max_results"], 4)
             specs.append(sp)
     terms, meta = [], []
@@ -1767,8 +1770,24 @@ def run_cases(ctx, replay, corpus_only=False):
         elif spec.get("rerun"):
             # first run under the fixed name stores its table; then fresh scheduler / backend / callbacks / Tuner in
             # the same experiment directory: what is read back afterwards must be the table of the LAST run only
-            first = run_whole(ctx, dict(spec, rerun=None))
-            obs = run_whole(ctx, dict(spec, rerun=None, **spec["rerun"]))
+            first_spec = dict(spec, rerun=None)
+            if spec.get("first_flipped"):
+                # the EARLIER experiment under this name optimised the other way round (and, for scripted runs, other
+                # metric names): what is loaded after the second run must describe the second run's scheduler
+                flip = {"min": "max", "max": "min"}
+                m = spec["mode"]
+                first_spec["mode"] = [flip[x] for x in m] if isinstance(m, list) else flip[m]
+                first_spec.pop("ctor_mode", None)
+                if spec.get("first_renamed"):
+                    ren = {n: n + "x" for n in spec["names"]}
+                    first_spec["names"] = [ren[n] for n in spec["names"]]
+                    first_spec["scripts"] = [[{ren.get(k, k): v for k, v in r.items()} for r in sc]
+                                             for sc in spec["scripts"]]
+                    first_spec["dtypes"] = {ren.get(k, k): v for k, v in (spec.get("dtypes") or {}).items()}
+            first = run_whole(ctx, first_spec)
+            obs = run_whole(ctx, dict(spec, rerun=None, **{k: v for k, v in spec["rerun"].items()}))
+            ctx.h("run_rerun_first_scheduler", "flipped mode%s" % (", other metric names" if spec.get("first_renamed")
+                                                                   else "") if spec.get("first_flipped") else "same")
             if obs.get("run_model") is not None:
                 obs["run_model"]["old"] = first["rows"]  # what results.csv.zip held before the second run
             ctx.h("run_rerun", "first run %s rows, second run %s" % (
